@@ -104,37 +104,61 @@ def history_oracle(line, case):
 
 
 def gen_history(rng, name, cap, n_msgs):
-    """messages over the q-interfaces: OK, VAL?, FAIL, CUST, ARG (arity fault), NOPE (undefined), ARG 999 (-120), SYST:ERR?, SYST:ERR:COUN?"""
+    """messages over the q-interfaces: OK, VAL?, FAIL, CUST, ARG (arity fault), NOPE (undefined), ARG 999 (-120), SYST:ERR?, SYST:ERR:COUN?,
+    *IDN? — units after the first are absolute (leading colon) or relative to the path the previous unit left (root, SYST or SYST:ERR)"""
     events = []
     msgs = []
     for _ in range(n_msgs):
         units = []
-        k = rng.choice([1, 1, 2, 3])
+        k = rng.choice([1, 1, 2, 3, 4])
+        path = ()
         for ui in range(k):
             r = rng.random()
-            first = ui == 0
-            pre = '' if first else ':'
-            if r < 0.12:
-                units.append(pre + 'OK')
-            elif r < 0.2:
-                units.append(pre + 'VAL?'); events.append(('out', b'7\n'))
-            elif r < 0.32:
-                units.append(pre + 'FAIL'); events.append(('err', '-200'))
-            elif r < 0.42:
-                units.append(pre + 'CUST'); events.append(('err', 'c42:' + hx('custom')))
-            elif r < 0.5:
-                units.append(pre + 'ARG'); events.append(('err', '-115'))
-            elif r < 0.56:
-                units.append(pre + 'ARG 999'); events.append(('err', '-120'))
+
+            def root_unit(text):
+                nonlocal path
+                rel = path == () and (ui == 0 or rng.random() < 0.5)
+                units.append(text if (rel or ui == 0) else ':' + text)
+                path = ()
+
+            def sys_unit(levels, q='?', arg=''):
+                """levels: mnemonics below SYST, e.g. ['ERR'] or ['ERR', 'NEXT']"""
+                nonlocal path
+                full = ['SYST'] + levels
+                forms = [(':' if ui else rng.choice(['', ':'])) + ':'.join(full)]
+                if path == ():
+                    forms.append(':'.join(full))
+                if path and tuple(full[:len(path)]) == path and len(full) > len(path):
+                    forms += [':'.join(full[len(path):])] * 2
+                h = rng.choice(forms)
+                if rng.random() < 0.3:
+                    h = h.lower()
+                units.append(h + q + arg)
+                path = tuple(full[:-1])
+
+            if r < 0.1:
+                root_unit('OK')
+            elif r < 0.18:
+                root_unit('VAL?'); events.append(('out', b'7\n'))
+            elif r < 0.28:
+                root_unit('FAIL'); events.append(('err', '-200'))
+            elif r < 0.36:
+                root_unit('CUST'); events.append(('err', 'c42:' + hx('custom')))
+            elif r < 0.43:
+                root_unit('ARG'); events.append(('err', '-115'))
+            elif r < 0.48:
+                root_unit('ARG 999'); events.append(('err', '-120'))
+            elif r < 0.53:
+                root_unit('VAL'); events.append(('err', '-113'))   # command form of a query-only node
             elif r < 0.62:
-                units.append(pre + 'VAL'); events.append(('err', '-113'))   # command form of a query-only node
-            elif r < 0.66:
+                units.append(rng.choice(['*IDN?', '*idn?'])); events.append(('out', b'"Q"\n'))   # common command: path untouched
+            elif r < 0.67:
                 # a parameter on a queue query: wrong parameter count, nothing is removed from the queue
-                units.append(pre + rng.choice(['SYST:ERR? 1', 'SYST:ERR:NEXT? 0', 'SYST:ERR:COUN? 2'])); events.append(('err', '-115'))
-            elif r < 0.82:
-                units.append(pre + rng.choice(['SYST:ERR?', 'SYST:ERR:NEXT?', 'syst:err?', 'SYSTEM:ERROR:NEXT?'])); events.append(('next',))
+                sys_unit(rng.choice([['ERR'], ['ERR', 'NEXT'], ['ERR', 'COUN']]), arg=' ' + rng.choice(['1', '0', '2'])); events.append(('err', '-115'))
+            elif r < 0.84:
+                sys_unit(rng.choice([['ERR'], ['ERR', 'NEXT']])); events.append(('next',))
             else:
-                units.append(pre + rng.choice(['SYST:ERR:COUN?', 'SYSTem:ERRor:COUNt?'])); events.append(('count',))
+                sys_unit(['ERR', 'COUN']); events.append(('count',))
         msgs.append(';'.join(units) + '\n')
         if rng.random() < 0.15:      # a parse-level fault: the rest of that message is skipped
             msgs.append('NOPE;OK\n'); events.append(('err', '-113'))
@@ -155,7 +179,7 @@ def cases(tier, rng, ifaces):
     out.append(Case('ERRTAB', None, {'kind': 'ERRTAB'}))
     n_hist = 300 if tier == 'quick' else 3000
     for i in range(n_hist):
-        name, cap = rng.choice([('q1', 1), ('q2', 2), ('q3', 3), ('q4', 4)])
+        name, cap = rng.choice([('q1', 1), ('q2', 2), ('q3', 3), ('q4', 4), ('k1', 3)])
         msgs, events = gen_history(rng, name, cap, rng.randint(1, 8))
         if rng.random() < 0.5:
             op = f"RUN {name} std " + '|'.join(hx(m) for m in msgs)
